@@ -20,8 +20,8 @@ func init() {
 	register(&Rule{ID: "P-RECURSE-CONSUME", Props: []string{"C09"}, Floor: 5,
 		Doc: "in the parser's recursive cycle the calls that are not preceded (dominated) by the consumption of a token form no cycle: every round trip through the recursive descent consumes at least one token",
 		Run: rulePRecurseConsume})
-	register(&Rule{ID: "P-LEX-PROGRESS", Props: []string{"C09", "C04"}, Floor: 3,
-		Doc: "every loop of the lexer and of the literal decoders makes progress on every iteration: each back edge carries a position (or remaining-text) variable changed since the loop header",
+	register(&Rule{ID: "P-LEX-PROGRESS", Props: []string{"C09", "C04"}, Floor: 2,
+		Doc: "every loop of the lexer makes progress on every iteration: each back edge carries a position (or remaining-text) variable changed since the loop header",
 		Run: rulePLexProgress})
 	register(&Rule{ID: "P-ERRCHECK", Props: []string{"C04", "C08", "C03", "C16"}, Floor: 100,
 		Doc: "no error returned by a call in API-reachable code is dropped: the error result is tested, returned or passed on (the always-nil errors of strings.Builder writes are the only exemption)",
@@ -421,12 +421,9 @@ func rulePRecurseConsume(p *Program, r *Reporter) {
 }
 
 func rulePLexProgress(p *Program, r *Reporter) {
+	// the scanners of the lexer; the literal decoders of the parser are covered by P-DECODE (every shape of text is
+	// decoded to the end within the bound)
 	fns := p.ReachFuncs(p.Lexer)
-	for _, kind := range []string{"quoted", "string"} {
-		if f := literalHelpers(p)[kind]; f != nil {
-			fns = append(fns, f)
-		}
-	}
 	for _, fn := range fns {
 		name := p.FuncName(fn)
 		loops := loopsOf(fn)
